@@ -15,6 +15,7 @@ import (
 	"github.com/basecomplextech/baselibrary/buffer"
 	"github.com/basecomplextech/spec"
 	"verif/harness/internal/hx"
+	"verif/harness/internal/rd"
 )
 
 var guard *hx.Guard
@@ -75,19 +76,6 @@ func step(line string) (res string) {
 	return decodeOp(op, b)
 }
 
-// inside reports whether view v lies inside b (empty views are always fine).
-func inside(b, v []byte) bool {
-	if len(v) == 0 {
-		return true
-	}
-	if len(b) == 0 {
-		return false
-	}
-	b0 := uintptr(unsafe.Pointer(unsafe.SliceData(b)))
-	v0 := uintptr(unsafe.Pointer(unsafe.SliceData(v)))
-	return v0 >= b0 && v0+uintptr(len(v)) <= b0+uintptr(len(b))
-}
-
 func res(v string, n int, err error, inputLen int) string {
 	if err != nil {
 		return fmt.Sprintf("err %s %d", hx.ErrClass(err), n)
@@ -99,23 +87,9 @@ func res(v string, n int, err error, inputLen int) string {
 	return s
 }
 
-func showF32(v float32) string {
-	if v != v {
-		return "nan"
-	}
-	return strconv.FormatUint(uint64(math.Float32bits(v)), 10)
-}
-
-func showF64(v float64) string {
-	if v != v {
-		return "nan"
-	}
-	return strconv.FormatUint(math.Float64bits(v), 10)
-}
-
 func view(b, v []byte) string {
 	s := hx.Hex(v)
-	if !inside(b, v) {
+	if !rd.Inside(b, v) {
 		s += "@OUTSIDE"
 	}
 	return s
@@ -150,10 +124,10 @@ func decodeOp(op string, b []byte) string {
 		return res(strconv.FormatUint(v, 10), n, err, ln)
 	case "f32":
 		v, n, err := spec.DecodeFloat32(b)
-		return res(showF32(v), n, err, ln)
+		return res(rd.ShowF32(v), n, err, ln)
 	case "f64":
 		v, n, err := spec.DecodeFloat64(b)
-		return res(showF64(v), n, err, ln)
+		return res(rd.ShowF64(v), n, err, ln)
 	case "bin64":
 		v, n, err := spec.DecodeBin64(b)
 		if err != nil || n == 0 {
@@ -211,7 +185,7 @@ func decodeOp(op string, b []byte) string {
 		s := "ok " + strconv.Itoa(n)
 		if n < 0 || n > ln {
 			s += " SIZE-OUT-OF-RANGE"
-		} else if !inside(b, v) || len(v) != n {
+		} else if !rd.Inside(b, v) || len(v) != n {
 			s += " VIEW-MISMATCH"
 		}
 		return s
@@ -228,7 +202,7 @@ func decodeOp(op string, b []byte) string {
 		}
 		return "ok " + strconv.Itoa(n)
 	case "walk":
-		return walk(b, b)
+		return rd.Walk(b, b)
 	case "c13":
 		return c13Op(b)
 	}
@@ -244,141 +218,6 @@ func tableString(b []byte, p unsafe.Pointer, data uint32) string {
 	}
 	t := (*tbl)(p)
 	return fmt.Sprintf("%s %d %v", view(b, t.table), t.data, t.big)
-}
-
-func sc(v string, err error) string {
-	if err != nil {
-		return "!" + hx.ErrClass(err)
-	}
-	return v
-}
-
-// walk mirrors SpecVerif.walk through the public accessors; root is the original input (for the
-// containment check of every returned view).
-func walk(root []byte, b []byte) (out string) {
-	defer func() {
-		if e := recover(); e != nil {
-			out = "PANIC"
-		}
-	}()
-	if !inside(root, b) {
-		return "OUTSIDE"
-	}
-	if len(b) == 0 {
-		return "nil"
-	}
-	v := spec.Value(b)
-	t := v.Type()
-	switch t {
-	case spec.TypeTrue:
-		return "T"
-	case spec.TypeFalse:
-		return "F"
-	case spec.TypeByte:
-		x, err := v.ByteErr()
-		return "by:" + sc(strconv.Itoa(int(x)), err)
-	case spec.TypeInt16:
-		x, err := v.Int16Err()
-		return "i16:" + sc(strconv.FormatInt(int64(x), 10), err)
-	case spec.TypeInt32:
-		x, err := v.Int32Err()
-		return "i32:" + sc(strconv.FormatInt(int64(x), 10), err)
-	case spec.TypeInt64:
-		x, err := v.Int64Err()
-		return "i64:" + sc(strconv.FormatInt(x, 10), err)
-	case spec.TypeUint16:
-		x, err := v.Uint16Err()
-		return "u16:" + sc(strconv.FormatUint(uint64(x), 10), err)
-	case spec.TypeUint32:
-		x, err := v.Uint32Err()
-		return "u32:" + sc(strconv.FormatUint(uint64(x), 10), err)
-	case spec.TypeUint64:
-		x, err := v.Uint64Err()
-		return "u64:" + sc(strconv.FormatUint(x, 10), err)
-	case spec.TypeFloat32:
-		x, err := v.Float32Err()
-		return "f32:" + sc(showF32(x), err)
-	case spec.TypeFloat64:
-		x, err := v.Float64Err()
-		return "f64:" + sc(showF64(x), err)
-	case spec.TypeBin64:
-		x, err := v.Bin64Err()
-		return "b64:" + sc(hx.Hex(x[:]), err)
-	case spec.TypeBin128:
-		x, err := v.Bin128Err()
-		return "b128:" + sc(hx.Hex(x.Marshal()), err)
-	case spec.TypeBin256:
-		x, err := v.Bin256Err()
-		return "b256:" + sc(hx.Hex(x.Marshal()), err)
-	case spec.TypeBytes:
-		x, err := v.BytesErr()
-		if !inside(root, x) {
-			return "bs:OUTSIDE"
-		}
-		return "bs:" + sc(hx.Hex(x), err)
-	case spec.TypeString:
-		x, err := v.StringErr()
-		xb := unsafe.Slice(unsafe.StringData(string(x)), len(x))
-		if !inside(root, xb) {
-			return "s:OUTSIDE"
-		}
-		return "s:" + sc(hx.Hex(xb), err)
-	case spec.TypeStruct:
-		x, _, err := spec.DecodeStruct(b)
-		return "S:" + sc(strconv.Itoa(x), err)
-	case spec.TypeList, spec.TypeBigList:
-		l, err := v.ListErr()
-		if err != nil {
-			return "!L" + hx.ErrClass(err)
-		}
-		var sb strings.Builder
-		sb.WriteString("[")
-		n := l.Len()
-		for i := 0; i < n; i++ {
-			sb.WriteString(walkElem(root, l, i))
-			sb.WriteString(",")
-		}
-		sb.WriteString("]")
-		return sb.String()
-	case spec.TypeMessage, spec.TypeBigMessage:
-		m, err := v.MessageErr()
-		if err != nil {
-			return "!M" + hx.ErrClass(err)
-		}
-		var sb strings.Builder
-		sb.WriteString("{")
-		n := m.Fields()
-		for i := 0; i < n; i++ {
-			sb.WriteString(walkField(root, m, i))
-			sb.WriteString(",")
-		}
-		sb.WriteString("}")
-		return sb.String()
-	}
-	return "?" + strconv.Itoa(int(t))
-}
-
-func walkElem(root []byte, l spec.List, i int) (out string) {
-	defer func() {
-		if e := recover(); e != nil {
-			out = "PANIC"
-		}
-	}()
-	return walk(root, l.Get(i))
-}
-
-func walkField(root []byte, m spec.Message, i int) (out string) {
-	defer func() {
-		if e := recover(); e != nil {
-			out = "PANIC"
-		}
-	}()
-	tag, ok := m.TagAt(i)
-	tg := "none"
-	if ok {
-		tg = strconv.Itoa(int(tag))
-	}
-	return tg + "=" + walk(root, m.FieldAt(i))
 }
 
 func encodeOp(op, arg string) string {
